@@ -142,7 +142,7 @@ def run(ctx):
             res.count("siblings")
     from . import decsmall
 
-    for doc in decsmall.docs(3, (seed % 16, 16) if tier == "quick" else (0, 2), need=()):
+    for doc in decsmall.docs(3, ((seed + 12) % 16, 16) if tier == "quick" else (0, 2), need=()):
         uses_alias = any(ln[3][0] == "alias" for st in doc if st[0] == "decay" for ln in st[2])
         if uses_alias and not any(st[0] == "model_alias" for st in doc):
             continue    # a line naming an undefined ModelAlias: rightly refused (C06); not a well-formed text
